@@ -80,6 +80,7 @@ static void step(Run &r, Counters &c, size_t max, size_t off, size_t len, int op
 	auto fail = [&](const char *kind, const std::string &what) {
 		std::string k = kind;
 		if (k == "asan" || k == "content" || k == "retdata" || k == "struct" || k == "retval") k = "wrong-result";
+		if (k == "spurious-refusal") k = "refused-although-it-fits";
 		std::string ac = model_refuse ? "over-ask" : (argc.find("len=0") != std::string::npos ? "len=0" : (argc.find("len>tailseg") != std::string::npos || argc.find(">headseg") != std::string::npos || argc.find("=headseg") != std::string::npos ? "crossing-segments" : "in-range"));
 		r.violation(sigbase + ac + "|" + k, desc + " [" + pre + "; " + argc + "; " + kind + "]: " + what); bad = true; };
 	uint8_t data[64], out[64];
@@ -279,7 +280,20 @@ static void step(Run &r, Counters &c, size_t max, size_t off, size_t len, int op
 		if (model_refuse && !refused) fail("accepted-overask", "operation asking for more than stored/free was not refused");
 		else if (refused && m != before) { /* cannot happen: model only changes on success */ }
 	}
-	if (refused) { ++c.refusals; if (!model_refuse && op != FIND && op != STRING) ++c.spurious; m = before; }
+	if (refused) {
+		++c.refusals;
+		if (!model_refuse && op != FIND && op != STRING) {
+			// The only refusals of a satisfiable request the library documents: zero-length requests and removing
+			// wrapped (two-segment) data without a target buffer.  Anything else means the queue does not hold
+			// what the deque holds after the same operation.
+			bool posop = op == CROP || op == SET || op == SET0 || op == GET || op == GETN;
+			bool zero = posop ? b == 0 : a == 0;
+			bool nobuf = (op == POPN || op == SHIFTN) && wrapped(max, off, len);
+			if (zero || nobuf) ++c.spurious;
+			else if (!bad) fail("spurious-refusal", "a request that fits (enough stored / free bytes) was refused");
+		}
+		m = before;
+	}
 	else ++c.accepted;
 	// structural + content oracle on the post state
 	if (!bad && !content_checked_loose) {
@@ -370,7 +384,7 @@ void mc_explore(Run &r, const std::string &job)
 	Counters c = {0, 0, 0, 0};
 	r.require("nontrivial");
 	dfs(r, [&](Ctx &x) { body(r, c, job, x); });
-	r.count("nontrivial", c.nontrivial); r.count("refused", c.refusals); r.count("accepted", c.accepted); r.count("spurious_refusals(not flagged)", c.spurious);
+	r.count("nontrivial", c.nontrivial); r.count("refused", c.refusals); r.count("accepted", c.accepted); r.count("documented_refusals(zero-length or no target buffer for wrapped data)", c.spurious);
 }
 
 // large states: only content-preserving ops, content compared after the op
